@@ -1,5 +1,5 @@
 (** C20 — lemmas.  Everything is about the tables GENERATED from /repo (GenGates.v). *)
-From Coq Require Import List String Bool Floats Arith Lia.
+From Coq Require Import List String Bool PrimFloat Arith Lia.
 From V.C20 Require Import Model Spec GenGates.
 Import ListNotations.
 Open Scope string_scope.
